@@ -1,6 +1,7 @@
 import Pendulum.Proofs.AddDurCal
 import Pendulum.Proofs.C04
-import Pendulum.Proofs.DTArithGen
+import Pendulum.Proofs.DTArithGenAdd
+import Pendulum.Proofs.DTArithGenDate
 import Pendulum.Props.C02
 /-! # C04 — calendar-unit arithmetic follows the wall clock with end-of-month clamping
 
